@@ -311,7 +311,15 @@ func registerOS(e *Engine) {
 		if of.closed {
 			return TupleV{in.intTerm(0), in.globalVar("os", "ErrClosed")}
 		}
-		off := in.Concretize(a[2].(*smt.Term), len(of.ino.data)+in.maxLen, "pread offset")
+		// every offset at or beyond the end of the file behaves alike: EOF
+		offT := a[2].(*smt.Term)
+		if in.Branch(in.ctx.Sle(in.ctx.BV(uint64(len(of.ino.data)), 64), offT)) {
+			if b.Len == 0 {
+				return TupleV{in.intTerm(0), nilError()}
+			}
+			return TupleV{in.intTerm(0), in.globalVar("io", "EOF")}
+		}
+		off := in.Concretize(offT, len(of.ino.data), "pread offset")
 		n := min(b.Len, len(of.ino.data)-off)
 		if n < 0 {
 			n = 0
